@@ -268,7 +268,7 @@ func genC15(g *gen) {
 	// shared Dilithium key: created once, then signed with from every goroutine
 	shared := newState()
 	execOp(shared, "dl.new s "+dseed)
-	dl := []string{"dl.sign s " + hx(msg), "dl.sign s 01", "dl.sign s " + hx(g.bytes(40))}
+	dl := []string{"dl.sign s " + hx(msg), "dl.seal s " + hx(g.bytes(40)), "dl.sign s 01", "dl.seal s 0203", "dl.sign s " + hx(g.bytes(40)), "dl.seal s -"}
 	// per-goroutine private XMSS keys
 	priv := func(id int) []string {
 		k := fmt.Sprintf("p%d", id)
@@ -303,6 +303,10 @@ func genC15(g *gen) {
 			got := execOp(hst, lines[i])
 			g.check(got == want[lines[i]], "history-free", "a stateless call returns a different result after other calls: "+trunc(lines[i], 60), append(append([]string{}, perturb...), lines[i])...)
 		}
+		for _, l := range dl {
+			got := execOp(hst, l)
+			g.check(got == want[l], "history-free", "signing / sealing with the Dilithium key gives a different result after other calls: "+trunc(l, 60), l)
+		}
 		for id := 0; id < 3; id++ {
 			for _, l := range priv(id) {
 				got := execOp(hst, l)
@@ -324,6 +328,9 @@ func genC15(g *gen) {
 			gotb := execOp(hst, b)
 			g.check(gotb == want[b], "history-free", "a rejected Dilithium signature is judged differently after a genuine one: "+trunc(b, 40), good, b)
 		}
+	}
+	for _, ch := range hst.changedLater() {
+		g.check(false, "result-changed-later", "bytes the library returned from one call were changed by a later call: "+ch, ch)
 	}
 	// history across processes: a fresh process that makes unusual (but accepted) calls FIRST must then give the
 	// same answers as this one (state that is initialised lazily by the first caller shows only this way)
@@ -393,6 +400,11 @@ func genC15(g *gen) {
 					g.check(got == want[l], "concurrent-private-xmss", "a private XMSS key used in parallel with others behaved differently: "+trunc(l, 50), priv(t%3)...)
 					mu.Unlock()
 				}
+			}
+			for _, ch := range st.changedLater() {
+				mu.Lock()
+				g.check(false, "result-changed-later", "bytes returned to one goroutine were changed afterwards (by a later call or by another goroutine): "+ch, ch)
+				mu.Unlock()
 			}
 		}(t, order)
 	}
